@@ -1,0 +1,19 @@
+//go:build verif
+// +build verif
+
+package state
+
+import "github.com/youchainhq/go-youchain/common"
+
+// Verification hooks (build tag "verif" only, add-only) for property C14: access to the
+// unexported pendingRelationship record, which StateDB.loadPendingRelationship decodes from the
+// staking trie with rlp.DecodeBytes(data, newPendingRelationship()).
+
+// VerifNewPendingRelationship returns a fresh *pendingRelationship (an rlp.Encoder/Decoder),
+// exactly the decode target used by loadPendingRelationship.
+func VerifNewPendingRelationship() interface{} { return newPendingRelationship() }
+
+// VerifPendingRelationshipAdd calls (*pendingRelationship).Add.
+func VerifPendingRelationshipAdd(p interface{}, d, v common.Address) bool {
+	return p.(*pendingRelationship).Add(d, v)
+}
